@@ -30,7 +30,8 @@ ASSUMPTIONS = ["observers.notify delivers to every subscribed observer (slot_obs
                "ops tables are wired to the functions of their own shape (C05.f / C20.a)"]
 DECIDED = ["g input delta accessors gated on the current cycle", "a monotone record", "b writers of last_modified_time", "c readers", "d propagate iff newly recorded", "e every write marks",
            "f consumers are proxies", "h fixed-shape parent ticks only through its children",
-           'l insertion tables projected (time validation, window roll, key-set stamp, value-published bit)', 'n a child notifies its parent once per cycle: census of notify_child_modified (known finding F-C04-3)', 'j also: sampled-rebind shortcut of delta_value only at the link root in the rebind cycle (found F-C04-2, fixed)']
+           'l insertion tables projected (time validation, window roll, key-set stamp, value-published bit)', 'n a child notifies its parent once per cycle: census of notify_child_modified (known finding F-C04-3)', 'j also: sampled-rebind shortcut of delta_value only at the link root in the rebind cycle (found F-C04-2, fixed)',
+           'k also: the guard of record_target_modified is boundness and nothing stronger', 'o copy / move whole-value assignment siblings perform the same bookkeeping']
 NOT_DECIDED = ["delta content per shape", "reference blend rules"]
 
 LMT_WRITERS = {
